@@ -68,16 +68,16 @@ func TestGenGolden(t *testing.T) {
 			continue
 		}
 		cls := map[string]bool{
-			"overflow_chain":   h.maxOverflow > 0,
-			"split":            h.maxBuckets > 1,
-			"level_wrap_ge2":   h.maxLevel >= 2,
-			"free_list_reuse":  h.freeReuse > 0,
-			"rollover":         h.rollovers > 0,
-			"compaction":       h.compactedSegs > 0,
-			"clean_restart":    h.restarts > 0,
-			"deletes":          true,
-			"empty_value":      false,
-			"empty_key":        false,
+			"overflow_chain":  h.maxOverflow > 0,
+			"split":           h.maxBuckets > 1,
+			"level_wrap_ge2":  h.maxLevel >= 2,
+			"free_list_reuse": h.freeReuse > 0,
+			"rollover":        h.rollovers > 0,
+			"compaction":      h.compactedSegs > 0,
+			"clean_restart":   h.restarts > 0,
+			"deletes":         true,
+			"empty_value":     false,
+			"empty_key":       false,
 		}
 		for k, v := range h.model {
 			if v == "" {
